@@ -28,6 +28,10 @@ CLAIMED = {
    text='Seeded FASTQ libraries (all barcode/truncation/N classes, phred 33..126, six header styles, known/unknown/absent sequencing index) are pushed through the real loader loop for one registered strategy at a time, with joint or one-file-per-cell output (HandleLimiter on a SimFS with an fd budget and anomalous clock), with/without a rejects handle and any maxReadPairs cut-off. The recorded I/O history (reads, writes per sink) and the produced files are checked for exactly-once, mate synchronisation, order, valid gzip/FASTQ, reject reason + original bases/qualities, and counters = records written; rejects-off runs are compared with the rejects-on run. Sampled workloads: evidence, not proof.',
    note='Trusts the identity parser (unique cluster coordinates survive every header style). Narrow fault axis (fd budget, prune cadence, cut-off); wide axis is the workload. Paired-only strategies are only fed paired input.',
    tech='deterministic simulation: seeded stream workloads with fd-exhaustion faults on a simulated file system, conservation/exactly-once oracle over the recorded I/O history'),
+ 'C05': dict(engine='tagconserve', cat='exploration', design='5 C05',
+   text='Seeded input BAMs (1..12 contigs either side of the 100 kb small-contig threshold in any order, empty contigs, unplaced/half-mapped/orphan reads, invalid fragments, secondary/supplementary copies) are tagged end to end by the real command-line entry point in single-process mode and with --multiprocess under a SimPool (width 1..4, seeded completion order), with and without --no_rejects, for nla/chic/qflag. Oracle: multiset of primary records (identity, mate, sequence, qualities, reference, position, CIGAR) equals the input, output coordinate-sorted with a usable index, every record has a read group declared in the header, each contig with reads and the unplaced bin owned by exactly one job, --no_rejects removes exactly the invalid fragments (generator label + relation to the default run). Sampled inputs/orders: evidence, not proof.',
+   note='Trusts SimPool (atomic task bodies, pickled args/results, shared module globals), the identity parser and the generator label of invalid fragments; samtools-binary branches are unreachable here.',
+   tech='deterministic simulation: whole tagger pipeline per forked lifetime under a simulated process pool/clock/uuid source, conservation oracle against the input BAM'),
 }
 NA = {
  'C02': 'Pure function of (strategy layout, read pair): fixed slices of two strings; no stream state, schedule, clock, fault or history for a simulator to choose.',
